@@ -65,22 +65,19 @@ pub open spec fn erased_prefix<T, M: SortedDequeComparator<T>>(s: Seq<T>, m: &M)
     if s.len() == 0 || !m.erased(&s[0]) { 0 } else { 1 + erased_prefix(s.skip(1), m) }
 }
 
-impl<Container, Marker> SortedDeque<Container, Marker>
-where
-    Container: PushTruncateContainer + Clone + Default,
-    Container::Item: Copy,
-    Marker: SortedDequeComparator<Container::Item> + Clone,
+// erased_prefix is the only k with: items before k erased, item k (if any) live
+pub proof fn lemma_erased_prefix_is<T, M: SortedDequeComparator<T>>(s: Seq<T>, m: &M, k: int)
+    requires 0 <= k <= s.len(), forall|i: int| 0 <= i < k ==> m.erased(&#[trigger] s[i]), k < s.len() ==> !m.erased(&s[k])
+    ensures erased_prefix(s, m) == k
+    decreases s.len()
 {
-    // ASSUMED contract of SortedDeque::cleanup_front (its body is `for (idx, item) in self.items.iter().enumerate()`,
-    // an iterator adapter outside Verus's dialect): it drops exactly the leading run of erased items.  Checked
-    // BOUNDED only: Kani harnesses c16_*_pop_first / c16_*_remove (<= 4 / 5 physical items) and the native
-    // cross-check kn/sorted_deque.rs (every removal subset over <= 10 / 13 keys).
-    #[verifier::external_body]
-    fn cleanup_front(&mut self)
-        requires old(self).items.rep_ok()
-        ensures final(self).items.rep_ok(), final(self).marker == old(self).marker,
-            final(self).phys() == old(self).phys().skip(erased_prefix(old(self).phys(), &old(self).marker)),
-    { unimplemented!() }
+    if k > 0 {
+        assert(m.erased(&s[0]));
+        let t = s.skip(1);
+        assert forall|i: int| 0 <= i < k - 1 implies m.erased(&#[trigger] t[i]) by { assert(t[i] == s[i + 1]); }
+        if k - 1 < t.len() { assert(t[k - 1] == s[k]); }
+        lemma_erased_prefix_is(t, m, k - 1);
+    }
 }
 
 // ---- lemmas about sorted / live_of ---------------------------------------------------------------------------
